@@ -23,6 +23,8 @@ TRUSTED = ["CPython ast", "pmcsa/paths.py", "ordering-domain evaluation in pmcsa
 
 Score = namedtuple("Score", "id")
 Name = namedtuple("Name", "id")
+Text = namedtuple("Text", "parts")
+KEY = Opaque("key-param")
 RV = "pymemcache/client/rendezvous.py"
 
 IMPURE_CALLS = ("hash", "id", "random", "time", "os", "uuid", "getpid", "urandom", "shuffle", "choice", "sample")
@@ -39,9 +41,21 @@ class OrderDomain(Domain):
         self.name_rank = name_rank  # id -> rank (distinct)
         self.nodes = nodes
         self.hash_calls = 0
+        self.hash_inputs = []
         self.unsupported = []
+        pp = fn.pos_params() if fn is not None else []
+        self.keyparam = pp[0].name if pp and fn.name == "get_node" else None
+
+    def name_load(self, name, state, node=None):
+        if state.has(name):
+            return state.get(name)
+        if self.keyparam is not None and name == self.keyparam and not self.frames:
+            return KEY
+        return TOP
 
     def attr_load(self, objval, node, state):
+        if isinstance(objval, Const) and isinstance(objval.v, str):
+            return ("strmeth", objval, node.attr)
         if is_self_attr(node, "nodes"):
             return TupleV(tuple(Name(i) for i in self.nodes))
         if is_self_attr(node, "hash_function"):
@@ -50,20 +64,62 @@ class OrderDomain(Domain):
             return Opaque("seed")
         return TOP
 
+    # ---- strings built from the node, the key and literals: Text(parts), parts = ('node', id) / ('key',) / ('lit', s)
+    def _parts(self, v):
+        if isinstance(v, Text):
+            return v.parts
+        if isinstance(v, Name):
+            return (("node", v.id),)
+        if v == KEY:
+            return (("key",),)
+        if isinstance(v, Const) and isinstance(v.v, str):
+            return (("lit", v.v),) if v.v else ()
+        return (("other", str(v)),)
+
+    def _text(self, parts):
+        out = []
+        for p_ in parts:
+            if out and out[-1][0] == "lit" and p_[0] == "lit":
+                out[-1] = ("lit", out[-1][1] + p_[1])
+            else:
+                out.append(p_)
+        return Text(tuple(out))
+
     def fstring(self, node, parts, state):
-        names = [p for p in parts if isinstance(p, Name)]
-        if len(names) == 1:
-            return Opaque(("hash-input", names[0].id))
-        return TOP
+        vals = list(parts)
+        out = []
+        for piece in node.values:
+            if isinstance(piece, ast.Constant):
+                out.append(("lit", piece.value))
+            else:
+                v = vals.pop(0) if vals else TOP
+                if piece.format_spec is not None or piece.conversion not in (-1, 115):
+                    out.append(("other", "formatted"))
+                else:
+                    out += list(self._parts(v))
+        return self._text(out)
 
     def binop(self, node, l, r, state):
-        for v in (l, r):
-            if isinstance(v, Name):
-                return Opaque(("hash-input", v.id))
-            if isinstance(v, Opaque) and isinstance(v.tag, tuple) and v.tag[0] == "hash-input":
-                return v
-            if isinstance(v, TupleV) and any(isinstance(x, Name) for x in v.items):
-                return Opaque(("hash-input", [x for x in v.items if isinstance(x, Name)][0].id))
+        stringy = lambda v: isinstance(v, (Text, Name)) or v == KEY or (isinstance(v, Const) and isinstance(v.v, str))
+        if isinstance(node.op, ast.Add) and stringy(l) and stringy(r):
+            return self._text(self._parts(l) + self._parts(r))
+        if isinstance(node.op, ast.Mod) and isinstance(l, Const) and isinstance(l.v, str):
+            args = list(r.items) if isinstance(r, TupleV) else [r]
+            out, rest = [], l.v
+            import re
+
+            for lit, spec in re.findall(r"([^%]*)(%[sd%]|%.|$)", rest):
+                if lit:
+                    out.append(("lit", lit))
+                if spec == "%s" and args:
+                    out += list(self._parts(args.pop(0)))
+                elif spec == "%%":
+                    out.append(("lit", "%"))
+                elif spec:
+                    out.append(("other", spec))
+            if args:
+                out.append(("other", "surplus arguments"))
+            return self._text(out)
         return super().binop(node, l, r, state)
 
     def call(self, node, fval, args, kwargs, state):
@@ -71,12 +127,41 @@ class OrderDomain(Domain):
         if fval == Opaque("hash_function") or name == "self.hash_function":
             self.hash_calls += 1
             a = args[0] if args else TOP
-            if isinstance(a, Opaque) and isinstance(a.tag, tuple) and a.tag[0] == "hash-input":
-                return [("ok", Score(a.tag[1]), state)]
-            self.unsupported.append("hash input `%s` is not built from the node" % node_src(node.args[0] if node.args else node))
+            parts = self._parts(a) if a is not TOP else (("other", "unknown"),)
+            self.hash_inputs.append((node, parts, len(args) + len(kwargs)))
+            nodes_in = [p_[1] for p_ in parts if p_[0] == "node"]
+            if len(nodes_in) == 1:
+                # (whether the input is exactly '<node>-<key>' is R2's question; the ordering rules only need whose score it is)
+                return [("ok", Score(nodes_in[0]), state)]
+            self.unsupported.append("hash input `%s` is not built from one node" % node_src(node.args[0] if node.args else node))
             return [("ok", TOP, state)]
         if name == "str" and args:
             return [("ok", args[0], state)]
+        if isinstance(fval, tuple) and fval and fval[0] == "strmeth" and fval[2] == "format" and isinstance(fval[1], Const) and isinstance(fval[1].v, str) and not kwargs:
+            import string
+
+            out, rest = [], list(args)
+            try:
+                for lit, field, spec, conv in string.Formatter().parse(fval[1].v):
+                    if lit:
+                        out.append(("lit", lit))
+                    if field is None:
+                        continue
+                    if field == "" and not spec and conv in (None, "s") and rest:
+                        out += list(self._parts(rest.pop(0)))
+                    elif field.isdigit() and not spec and conv in (None, "s") and int(field) < len(args):
+                        out += list(self._parts(args[int(field)]))
+                    else:
+                        out.append(("other", "{%s}" % field))
+            except ValueError:
+                out.append(("other", "bad format string"))
+            return [("ok", self._text(out), state)]
+        if name.startswith("self._") and name.count(".") == 1 and self.prog is not None:
+            m = self.prog.cls("RendezvousHash").methods.get(name[5:])
+            if m is not None:
+                res = self.inline(node, m, args, kwargs, state)
+                if res is not None:
+                    return res
         if name in ("max", "min") and len(args) == 2:
             a, b = args
             if a == NONE or b == NONE:
@@ -196,15 +281,20 @@ def run(chk):
     maxform = _max_form(gn)
     if len(loops) != 1 and not maxform:
         raise AnalysisError("C11: get_node has %d loops and is not a recognised max(...) form" % len(loops))
-    keyp = gn.pos_params()[0].name
-    hash_calls = [c for c in ast.walk(gn.node) if isinstance(c, ast.Call) and (call_name(c) == "self.hash_function")]
-    r2.floor("hash calls in get_node", len(hash_calls), 1)
-    for c in hash_calls:
-        arg = c.args[0] if c.args else None
-        lv = _enclosing_itervar(c)
-        ok, why = _hash_input_ok(arg, lv, keyp)
-        r2.expect(ok, "hash input is f'{%s}-{%s}'" % (lv, keyp), "RendezvousHash.get_node:hash-input", "the score is computed from `%s`: %s" % (node_src(arg) if arg is not None else None, why), fn=gn, node=c)
-        r2.expect(len(c.args) == 1 and not c.keywords, "hash_function called with the string only", "RendezvousHash.get_node:hash-extra-args", "extra arguments are passed to the hash", fn=gn, node=c)
+    # get_node interpreted on two nodes: every hash input is exactly '<node>-<key>' of the node being scored, the hash
+    # is called with that string only, and each node is scored once
+    dom = OrderDomain(prog, gn, {0: 0, 1: 1}, {0: 0, 1: 1}, [0, 1])
+    Interp(dom, gn.node, prog).run(Env())
+    r2.floor("hash calls in get_node (two nodes)", len(dom.hash_inputs), 2)
+    scored = []
+    for c, parts, nargs in dom.hash_inputs:
+        nodes_in = [p_[1] for p_ in parts if p_[0] == "node"]
+        want = (("node", nodes_in[0]), ("lit", "-"), ("key",)) if len(nodes_in) == 1 else None
+        scored += nodes_in
+        shown = "".join("<node>" if p_[0] == "node" else "<key>" if p_[0] == "key" else p_[1] if p_[0] == "lit" else "<%s>" % p_[1] for p_ in parts)
+        r2.expect(want is not None and tuple(parts) == want, "hash input is '<node>-<key>'", "RendezvousHash.get_node:hash-input", "the score of a node is computed from the string `%s` instead of '<node>-<key>': it no longer depends on exactly that node and the key (or differs from the published scheme, so existing keys move)" % shown, fn=gn, node=c)
+        r2.expect(nargs == 1, "hash_function called with the string only", "RendezvousHash.get_node:hash-extra-args", "extra arguments are passed to the hash", fn=gn, node=c)
+    r2.expect(sorted(scored) == [0, 1], "each node in rotation is scored exactly once", "RendezvousHash.get_node:nodes-scored", "with two nodes in rotation the nodes scored are %s" % scored, fn=gn, node=gn.node)
     init = prog.method(rv, "__init__")
     lam = [n for n in walk_no_nested(init.node) if isinstance(n, ast.Assign) and any(is_self_attr(t, "hash_function") for t in n.targets)]
     ok = False
